@@ -40,6 +40,7 @@ _SESSIONS = {}
 def target_plan(ns, base, tier):
     """The option sets of properties.yaml exercised per tier.  -> list of unbuilt targets."""
     ts = [T.PyTarget(ns, base / "py", None),
+          T.PyTarget(ns, base / "py_O", None, optimize=True, ndarray=True),     # python -O: the generated asserts do not exist
           T.CTarget(ns, base / "c_any", "any", False),
           T.CTarget(ns, base / "c_little_asserts", "little", True),
           T.CppTarget(ns, base / "cpp14_asserts", "c++14", asserts=True),
@@ -141,8 +142,9 @@ def get_session(ctx):
     return _SESSIONS[key]
 
 
-REFINE_MODULES = {"C01": ["C01Refine", "C01RefinePy"], "C02": ["C01Refine", "C01RefinePy"]}
-REFINE_EXES = {"C01": ["genc", "genpy"], "C02": ["genc", "genpy"]}
+REFINE_MODULES = {"C01": ["C01Refine", "C01RefinePy", "C01RefineCpp"], "C02": ["C01Refine", "C01RefinePy", "C01RefineCpp"],
+                  "C03": ["C01RefineCpp"]}
+REFINE_EXES = {"C01": ["genc", "genpy", "gencpp"], "C02": ["genc", "genpy", "gencpp"], "C03": ["gencpp"]}
 _DRIVERS = {}
 
 
@@ -156,6 +158,9 @@ def run_refinement_ties(ctx):
     if "genpy" in drivers:
         from . import genpy_tie
         genpy_tie.run_genpy(ctx, drivers)
+    if "gencpp" in drivers:
+        from . import gencpp_tie
+        gencpp_tie.run_gencpp(ctx, drivers)
     ctx.extra.setdefault("seconds", {})["refinement_ties"] = round(time.time() - t0, 2)
 
 
